@@ -14,13 +14,19 @@ What is proved here, for all inputs (no bound):
   (`Gen.pegGrammar`, ~700 rules) passes the checker `WF` (`gen_grammar_wf`, re-decided by the kernel on every run), hence
   by `PegTotal.parse_terminates` both passes of `Parser.parse` finish within recursion depth linear in the number of
   tokens, for every token string, whatever the terminals match and whatever the actions return or raise.
+* **one internal exception excluded for all inputs**: `scenic_loc_actions_see_tokens` — no action that uses `LOCATIONS`
+  is ever run on an empty token window (`gen_loc_safe` re-decided on every run), so the generated parser's
+  `get_last_non_whitespace_token()` never leaves `tok` unbound; more generally `PegTotal.oracle_invariant`: every call
+  of the action code is for an alternative of the grammar, on a window inside the input, empty only if the nullable
+  table allows it.
 * **state inactive afterwards**: `front_state_restored` — for the activation/deactivation data and the try/finally
   skeleton extracted from veneer.py / translator.py (`Gen.frontData`), after any tree of nested compilations with
-  failures anywhere, `activity = 0`, the scenario stack is empty, 2D mode is off, and the only globals that may differ
-  from their initial values are those in `knownLeaks` (recorded defects; empty once they are repaired).
-  `front_state_restored_partial` is the form that holds for the *unguarded* `finally` of `_scenarioFromStream`
-  (scripts without a nested top-level call whose activation assertion fails); `unguarded_is_real` is the negation
-  witness for the excluded scripts while the guard is missing.
+  failures anywhere (nested imports, nested top-level calls with or without overrides / 2D mode, caught or not), the
+  state *is* the inactive state: `activity = 0`, empty scenario stack, 2D mode off, every tracked global at its initial
+  value.  The two facts about the source this needs are side conditions re-decided on every run:
+  `gen_finally_guarded` (the `finally` of `_scenarioFromStream` deactivates only after a successful activation) and
+  `gen_veneer_resets_cover_writes` (no global written at compile time escapes `deactivate`).
+  `FrontState.unguarded_witness` / `leak_witness` show that neither side condition can be dropped.
 Not provable in this model (settled by enumeration in tools/props/c10.py): that the Python action code raises
 only Scenic syntax errors with a line inside the input, and the acceptance of the documented forms. -/
 namespace Scenic.C10
@@ -44,46 +50,55 @@ theorem scenic_parse_never_hangs {σ : Type} (E : Env σ) (o : σ) :
     parse E pegGrammar (fuelBound pegGrammar E.n) pegStart o ≠ .hang :=
   parse_terminates gen_grammar_wf pegStart o gen_start_ok
 
+/-- side condition on generated data: no alternative whose action uses `LOCATIONS` can match the empty token string -/
+theorem gen_loc_safe : locSafe pegGrammar (fun a => pegLocBits.testBit a) = true := by decide +kernel
+
+/-- on the real grammar, in both passes of `Parser.parse`, for every token string, terminal matching and action
+behaviour: an action that uses `LOCATIONS` is only ever run after at least one token has been consumed by its
+alternative, so `get_last_non_whitespace_token()` in the generated parser always finds its token (no
+`UnboundLocalError`), and the end position it reports lies inside the token list. -/
+theorem scenic_loc_actions_see_tokens {σ : Type} (E : Env σ) (o : σ) :
+    (interp (monitor (fun a => pegLocBits.testBit a) E) pegGrammar (fuelBound pegGrammar E.n) pegStart 0 false
+      ⟨{}, (o, false)⟩).2.orc.2 = false ∧
+    (interp (monitor (fun a => pegLocBits.testBit a) E) pegGrammar (fuelBound pegGrammar E.n) pegStart 0 true
+      ⟨{}, (interp (monitor (fun a => pegLocBits.testBit a) E) pegGrammar (fuelBound pegGrammar E.n) pegStart 0 false
+        ⟨{}, (o, false)⟩).2.orc⟩).2.orc.2 = false :=
+  parse_actions_see_tokens gen_grammar_wf _ gen_loc_safe _ pegStart o
+
 /-! ## compiler state -/
 
-/-- globals that are written during compilation and never reset (known defects of /repo, see findings.d/C10.json);
-the side condition below fails as soon as a *new* leak appears -/
-def knownLeaks : List String := ["inInitialScenario"]
-
+/-- names of the globals that some compile-time path writes and no `deactivate` resets (must be empty) -/
 def leakNames : List String := (leaks frontData).map (fun i => frontGlobalNames.getD i "?")
 
-/-- side condition on generated data: every global written on activation or by the compile-time API is reset by
-`deactivate`, except the recorded leaks -/
-theorem gen_veneer_resets_cover_writes : leakNames.all (fun n => knownLeaks.contains n) = true := by decide
+/-- side condition on generated data: every global written on activation or by the compile-time API of the veneer
+is reset by `deactivate` -/
+theorem gen_veneer_resets_cover_writes : leaks frontData = [] := by decide
 
 /-- side condition on generated data: `deactivate` restores 2D mode at activity 0 -/
 theorem gen_skeleton_ok : frontData.mode2DReset = true := by decide
 
-/-- after any compilation (guarded `finally`): inactive, and only recorded leaks may be dirty -/
-theorem front_state_restored (o : Opts) (ts : List Tok) (hg : frontData.sfsGuarded = true) :
+/-- side condition on generated data: the `finally` of `_scenarioFromStream` deactivates only if its own activation
+succeeded -/
+theorem gen_finally_guarded : frontData.sfsGuarded = true := by decide
+
+/-- **State restoration on the current source, all scripts, all options**: after `scenarioFromString` returns or raises,
+the veneer state is the inactive state. -/
+theorem front_state_restored (o : Opts) (ts : List Tok) : (runTop frontData o ts).st = St.inactive :=
+  compile_restores_inactive_guarded frontData o ts gen_skeleton_ok gen_veneer_resets_cover_writes gen_finally_guarded
+
+/-- in particular `veneer.isActive()` is false and nothing is left on the scenario stack -/
+theorem front_inactive_afterwards (o : Opts) (ts : List Tok) :
     (runTop frontData o ts).st.activity = 0 ∧ (runTop frontData o ts).st.stack = 0 ∧
-    (runTop frontData o ts).st.mode2D = false ∧ ∀ g ∈ (runTop frontData o ts).st.dirty, g ∈ leaks frontData := by
-  have := compile_restores_except_leaks frontData o ts gen_skeleton_ok (Or.inl hg)
-  exact ⟨this.2.1, this.2.2.1, this.2.2.2.1, this.2.2.2.2⟩
+    (runTop frontData o ts).st.mode2D = false ∧ (runTop frontData o ts).st.dirty = [] := by
+  rw [front_state_restored]; exact ⟨rfl, rfl, rfl, rfl⟩
 
-/-- the same for the current, unguarded skeleton: all scripts without a nested top-level call whose activation
-assertion fails (what is missing for the full statement is exactly `frontData.sfsGuarded = true`) -/
-theorem front_state_restored_partial (o : Opts) (ts : List Tok) (hp : plainTops ts = true) :
-    (runTop frontData o ts).st.activity = 0 ∧ (runTop frontData o ts).st.stack = 0 ∧
-    (runTop frontData o ts).st.mode2D = false ∧ ∀ g ∈ (runTop frontData o ts).st.dirty, g ∈ leaks frontData := by
-  have := compile_restores_except_leaks frontData o ts gen_skeleton_ok (Or.inr hp)
-  exact ⟨this.2.1, this.2.2.1, this.2.2.2.1, this.2.2.2.2⟩
+/-- and no frame of the machine is left open -/
+theorem front_no_frame_left (o : Opts) (ts : List Tok) : (runTop frontData o ts).frames = [] :=
+  (compile_restores_except_leaks frontData o ts gen_skeleton_ok (Or.inl gen_finally_guarded)).1
 
-/-- negation witness for the full statement on the current data: while the `finally` is unguarded, a nested
-`scenarioFromString(…, params=…)` leaves `activity = -1` -/
-theorem unguarded_is_real (h : frontData.sfsGuarded = false) :
-    (runTop frontData Opts.plain witnessScript).st.activity = -1 :=
-  unguarded_witness frontData h
-
-/-- and each recorded leak is reachable: one compile-time write suffices -/
-theorem leak_is_real (g : Nat) (hg : g ∈ leaks frontData) (hw : frontData.compileWrites.contains g = true) :
-    g ∈ (runTop frontData Opts.plain [Tok.write g]).st.dirty := by
-  simp only [leaks, List.mem_filter, Bool.and_eq_true, Bool.not_eq_true'] at hg
-  exact leak_witness frontData g hw hg.2.1 hg.2.2
+-- non-vacuity on the generated data: a nested top-level call with overrides inside an import, a failure, a write
+example : (runTop frontData ⟨true, true⟩
+    [Tok.write 0, Tok.openImp, Tok.probe, Tok.openTop ⟨true, false⟩ true, Tok.close, Tok.fail, Tok.close, Tok.write 0]).st
+    = St.inactive := front_state_restored _ _
 
 end Scenic.C10
